@@ -162,6 +162,19 @@ CLAIMED["C20"] = dict(
     design="6/C20",
 )
 
+CLAIMED["C06"] = dict(
+    text="PARTIAL. Lean theorems (Props/C06.lean): for every matcher every returned line and every unmatched line is one of the records "
+         "the reader produced, unchanged, at increasing positions; the headers are the cleaned cells of the first non-blank record and "
+         "contain none of the delimiter-like characters; #name and #index read the same cell, the index being the first position of the "
+         "name; a header beyond a short row (or unknown) reads as absent. Tie: suite `reader` writes generated records (unicode, quotes, "
+         "delimiters, newlines, blanks, ragged) with csv.writer in 8 dialects and requires the real collect() to return them, checks "
+         "headers, #name/#index and short rows through real csvpaths, and compares headers and header values with the model.",
+    note="Python's csv module and file decoding are a parameter of the model: dialect fidelity of the reader is tested, not proved. "
+         "Header names in the #name clause are simple generated names (the csvpath grammar restricts how a header can be written).",
+    technique="Lean 4 proof (run-loop lemmas, header model) + dialect round-trip correspondence",
+    design="6/C06",
+)
+
 NOT_YET = "check not built yet in this revision (planned: see DESIGN.md section 6); not claimed until its theorem and correspondence suite exist"
 
 
